@@ -142,3 +142,36 @@ def printed(out: str, tag: str):
     for line in out.splitlines():
         if line.startswith(prefix):
             yield line
+
+
+def printed_value(out: str, tag: str):
+    """ Parses the value of a (possibly multi-line) `PrintT(<<"tag", value>>)` from TLC output. """
+    from . import tlaval  # pylint: disable=import-outside-toplevel
+    start = out.find(f'<<"{tag}"')
+    if start < 0:
+        start = out.find(f'<< "{tag}"')
+    if start < 0:
+        raise MachineryError(f"TLC did not print {tag}")
+    depth = 0
+    pos = start
+    in_string = False
+    while pos < len(out):
+        two = out[pos:pos + 2]
+        char = out[pos]
+        if in_string:
+            if char == "\\":
+                pos += 1
+            elif char == '"':
+                in_string = False
+        elif char == '"':
+            in_string = True
+        elif two == "<<":
+            depth += 1
+            pos += 1
+        elif two == ">>":
+            depth -= 1
+            pos += 1
+            if depth == 0:
+                return tlaval.parse(out[start:pos + 1])[1]
+        pos += 1
+    raise MachineryError(f"unterminated {tag} value in TLC output")
